@@ -33,17 +33,19 @@ LABGEN = D("labels", "--scn", "@gen:Gen_Labels")
 TX = [D("lattice"), D("chains"), D("ext"), D("labels"), LABGEN]
 RX = [D("faults"), D("fuzzrx"), D("interleave"), D("frames"), D("memfaults"), RXGEN, RXGENF]
 UT = [D("utils")]
+# the same drivers over a second, independent implementation of the memory trait (alias-free, FIFO free list)
+X = lambda name: D(name, "--mem", "exact")  # noqa: E731
 
 PLAN = {
     "C01": {"mc": ["MC_Frag", "MC_FragReal"], "drivers": TX + [D("faults"), D("fuzzrx"), D("interleave"), D("frames"), D("memfaults")] + UT},
     "C02": {"mc": ["MC_Frag", "MC_FragReal", "MC_FragLive", "MC_Rx"], "drivers": TX + RX + UT},
-    "C03": {"mc": ["MC_Rx", "MC_Crc"], "drivers": [RXGEN, D("faults"), D("chains"), D("ext"), D("fuzzrx"), D("interleave"), D("frames"), D("memfaults"), D("labels")] + UT},
+    "C03": {"mc": ["MC_Rx", "MC_Crc"], "drivers": [RXGEN, D("faults"), D("chains"), D("ext"), D("fuzzrx"), D("interleave"), D("frames"), D("memfaults"), D("labels"), X("faults")] + UT},
     "C04": {"apalache": ["ApaLabels"], "mc": ["MC_Labels"], "drivers": [D("labels"), LABGEN, D("chains"), D("lattice"), D("ext"), D("faults"), D("fuzzrx"), D("memfaults"), D("interleave"), D("frames")]},
-    "C05": {"mc": ["MC_Wire", "MC_Rx"], "drivers": [D("fuzzrx"), D("faults"), D("ext"), D("chains"), D("labels"), D("interleave"), D("frames"), D("memfaults"), RXGEN, RXGENF] + UT},
+    "C05": {"mc": ["MC_Wire", "MC_Rx"], "drivers": [D("fuzzrx"), D("faults"), D("ext"), D("chains"), D("labels"), D("interleave"), D("frames"), D("memfaults"), RXGEN, RXGENF, X("fuzzrx")] + UT},
     "C06": {"mc": ["MC_Frag", "MC_FragReal", "MC_Wire"], "drivers": TX + [D("interleave"), D("frames")] + UT},
-    "C07": {"mc": ["MC_Rx"], "drivers": [RXGEN, RXGENF, D("interleave"), D("frames"), D("faults"), D("fuzzrx"), D("memfaults"), D("chains"), D("ext"), D("labels")] + UT},
+    "C07": {"mc": ["MC_Rx"], "drivers": [RXGEN, RXGENF, D("interleave"), D("frames"), D("faults"), D("fuzzrx"), D("memfaults"), D("chains"), D("ext"), D("labels"), X("interleave"), X("frames")] + UT},
     "C08": {"mc": ["MC_Rx", "MC_RxFaults", "MC_Memory"],
-            "drivers": [RXGEN, RXGENF, D("memfaults"), D("fuzzrx"), D("faults"), D("interleave"), D("labels"), D("chains"), D("ext"), D("frames")] + UT},
+            "drivers": [RXGEN, RXGENF, D("memfaults"), D("fuzzrx"), D("faults"), D("interleave"), D("labels"), D("chains"), D("ext"), D("frames"), X("memfaults"), X("fuzzrx")] + UT},
     "C09": {"mc": ["MC_Labels", "MC_Frag"], "drivers": TX + [D("interleave"), D("frames")] + UT},
     "C10": {"mc": ["MC_Wire", "MC_Rx"], "drivers": [D("frames"), D("chains"), D("ext"), D("lattice"), D("labels"), D("faults"), D("fuzzrx"), D("interleave"), D("memfaults"), RXGEN, RXGENF] + UT},
     "C11": {"mc": ["MC_Frag", "MC_FragReal", "MC_FragLive"], "drivers": TX + [D("interleave"), D("frames")] + UT},
@@ -51,7 +53,7 @@ PLAN = {
     "C13": {"mc": ["MC_Wire", "MC_Frag"], "drivers": [D("extnew"), D("ext"), D("lattice"), D("chains"), D("labels"), LABGEN, D("faults"), D("fuzzrx"), D("interleave"), D("frames"), D("memfaults")] + UT},
     "C14": {"mc": ["MC_Header"], "drivers": [D("hdr"), D("fuzzrx"), D("frames"), D("labels")], "exhaustive": True},
     "C15": {"apalache": ["ApaLabels"], "mc": ["MC_Labels"], "drivers": [D("labels"), LABGEN, D("lattice"), D("chains"), D("ext"), D("interleave"), D("frames")]},
-    "C16": {"mc": ["MC_Rx"], "drivers": [RXGEN, D("fuzzrx"), D("faults"), D("memfaults")]},
+    "C16": {"mc": ["MC_Rx"], "drivers": [RXGEN, D("fuzzrx"), D("faults"), D("memfaults"), X("faults"), X("memfaults")]},
     "C17": {"mc": ["MC_Memory"], "drivers": [D("memops"), D("memops", "--scn", "@gen:Gen_Memory"), D("fuzzrx"), LABGEN]},
     "C18": {"mc": ["MC_Frag"], "drivers": [D("lattice")]},
     "C19": {"mc": ["MC_Wire"], "drivers": [D("chains"), D("frames"), D("ext")]},
